@@ -103,6 +103,7 @@ type FuncContract struct {
 	NoLocks     bool // called (and entered) with no lock of the tracked mutexes held by this goroutine
 	NoOverflow  bool
 	DeadRets    map[int]bool // return sites declared unreachable under the precondition
+	LoopFrames  bool // entry-relative loop frames (loopframe.go)
 	StagedInv   bool // each loop invariant may use the ones listed before it (at entry and at every back edge)
 	Staged      bool // each postcondition may use the ones listed before it (proved at the same return site)
 	Writes      []Clause // with writesonly: the locations single stores may go to (default: the modifies clause)
@@ -158,7 +159,7 @@ func NewContractDB() *ContractDB {
 }
 
 var topKW = map[string]bool{"spec": true, "pred": true, "def": true, "lemma": true, "axiom": true, "func": true, "assumed": true, "interface": true, "region": true, "guarded": true, "props": true, "purepkg": true, "table": true, "ginv": true, "opaque": true}
-var clauseKW = map[string]bool{"requires": true, "ensures": true, "modifies": true, "nopanic": true, "nooverflow": true, "inline": true, "loop": true, "use": true, "mode": true, "by": true, "prop": true, "pure": true, "ghost": true, "nolocks": true, "writes": true, "writesonly": true, "trigger": true, "staged": true, "stagedinv": true, "reveal": true, "unreachable": true}
+var clauseKW = map[string]bool{"requires": true, "ensures": true, "modifies": true, "nopanic": true, "nooverflow": true, "inline": true, "loop": true, "use": true, "mode": true, "by": true, "prop": true, "pure": true, "ghost": true, "nolocks": true, "writes": true, "writesonly": true, "trigger": true, "staged": true, "stagedinv": true, "reveal": true, "loopframes": true, "unreachable": true}
 
 type rawItem struct {
 	kw      string
@@ -457,6 +458,8 @@ func (db *ContractDB) LoadContracts(path, pkgPath string) error {
 					fc.Staged = true
 				case "stagedinv":
 					fc.StagedInv = true
+				case "loopframes":
+					fc.LoopFrames = true
 				case "unreachable":
 					// unreachable ret <k> [...]: return site k cannot be reached under the precondition
 					// (dead code); every other return site must be reachable (vacuity canary)
